@@ -3,20 +3,27 @@ import DirectVerif.Model.C04Poisson
 /-!
 # C04 — `VariableDensityPoissonMaskFunc.poisson` / `mask_func` around the kernel
 
-One frame is what the last bisection step leaves in `mask`:
-`mask = kernel_mask | centered_disk_mask(...)`, then `mask *= r < 1` when `crop_corner` (the comparison `r < 1`
-is float glue and enters as a boolean array).  `mask_func` stacks the frames and reshapes; nothing is OR-ed
-afterwards, so with `crop_corner` the corners of the ACS disc are cropped as well.
+One frame is what the last bisection step leaves in `mask` (tree after the C06 repair `2480376`):
+`mask *= r < 1` when `crop_corner` (the comparison `r < 1` is float glue and enters as a boolean array), then
+`mask = mask | centered_disk_mask(...)` — the ACS disc is never cropped.  `mask_func` stacks the frames and
+reshapes.  `poissonFramePinned` is the order before the repair (`(kernel | disc) * crop`).
 -/
 namespace DirectVerif.C04Poisson
 open DirectVerif DirectVerif.MaskGeom
 
+/-- the kernel's mask after `if self.crop_corner: mask *= r < 1` -/
+def cropKernel (crop : Option (List Bool)) (k : List Bool) : List Bool :=
+  match crop with
+  | none => k
+  | some c => andL k c
+
 /-- one frame returned by `poisson(...)` for the kernel's mask `k` -/
 def poissonFrame (rows cols : Nat) (radius : Int) (crop : Option (List Bool)) (k : List Bool) : List Bool :=
-  let m := orL k (centeredDisk rows cols radius)
-  match crop with
-  | none => m
-  | some c => andL m c
+  orL (cropKernel crop k) (centeredDisk rows cols radius)
+
+/-- the order before the repair: the disc was cropped as well -/
+def poissonFramePinned (rows cols : Nat) (radius : Int) (crop : Option (List Bool)) (k : List Bool) : List Bool :=
+  cropKernel crop (orL k (centeredDisk rows cols radius))
 
 /-- `VariableDensityPoissonMaskFunc.mask_func(shape)` (mask branch) through `__call__`, given the kernel masks of
 the frames -/
